@@ -236,13 +236,12 @@ impl ChainStorage for ZarrChainStorage {
         let is_first_draw = self.last_sample_was_warmup && !info.tuning;
         if is_first_draw {
             {
-                let mut seen = std::collections::HashSet::new();
+                // Some fields of an event dimension may never receive a value (optional
+                // fields): the number of events is the maximum over all its fields.
                 for (field, dim) in &self.event_dim_of_stat {
-                    if seen.insert(dim.as_str()) {
-                        if let Some(buf) = self.stats_buffers.get(field.as_str()) {
-                            self.warmup_event_counts
-                                .insert(dim.clone(), buf.total_pushed());
-                        }
+                    if let Some(buf) = self.stats_buffers.get(field.as_str()) {
+                        let count = self.warmup_event_counts.entry(dim.clone()).or_insert(0);
+                        *count = (*count).max(buf.total_pushed());
                     }
                 }
             }
@@ -276,13 +275,11 @@ impl ChainStorage for ZarrChainStorage {
 
     /// Flush remaining samples and finalize storage
     fn finalize(self) -> Result<Self::Finalized> {
-        let mut seen = std::collections::HashSet::new();
         let mut sample_counts: HashMap<String, u64> = HashMap::new();
         for (field, dim) in &self.event_dim_of_stat {
-            if seen.insert(dim.as_str()) {
-                if let Some(buf) = self.stats_buffers.get(field.as_str()) {
-                    sample_counts.insert(dim.clone(), buf.total_pushed());
-                }
+            if let Some(buf) = self.stats_buffers.get(field.as_str()) {
+                let count = sample_counts.entry(dim.clone()).or_insert(0);
+                *count = (*count).max(buf.total_pushed());
             }
         }
 
@@ -326,22 +323,20 @@ impl ChainStorage for ZarrChainStorage {
     }
 
     fn inspect(&self) -> Result<Option<Self::Finalized>> {
-        let mut seen = std::collections::HashSet::new();
-        let mut counts = HashMap::new();
+        let mut counts: HashMap<String, (u64, u64)> = HashMap::new();
         for (field, dim) in &self.event_dim_of_stat {
-            if seen.insert(dim.as_str()) {
-                let s = self
-                    .stats_buffers
-                    .get(field.as_str())
-                    .map(|b| b.total_pushed())
-                    .unwrap_or(0);
-                let w = self
-                    .warmup_event_counts
-                    .get(dim.as_str())
-                    .copied()
-                    .unwrap_or(0);
-                counts.insert(dim.clone(), (w, s));
-            }
+            let s = self
+                .stats_buffers
+                .get(field.as_str())
+                .map(|b| b.total_pushed())
+                .unwrap_or(0);
+            let w = self
+                .warmup_event_counts
+                .get(dim.as_str())
+                .copied()
+                .unwrap_or(0);
+            let entry = counts.entry(dim.clone()).or_insert((w, 0));
+            entry.1 = entry.1.max(s);
         }
         Ok(Some(counts))
     }
